@@ -180,6 +180,9 @@ func RecvErrClass(err error) string {
 	if sc, ok := err.(ua.StatusCode); ok {
 		return fmt.Sprintf("status:%d", uint32(sc))
 	}
+	if _, ok := err.(*uacp.Error); ok {
+		return "uacp"
+	}
 	s := err.Error()
 	if m := recvReTooMany.FindStringSubmatch(s); m != nil {
 		return "toomany:" + m[1]
@@ -294,25 +297,32 @@ func RecvSafeToDecode(b []byte, goods [][]byte) bool {
 // stream) and returns the canonical results. The deadline bounds the whole
 // call; hitting it returns ok=false.
 func RecvDrain(rc *RecvChannel, max int, deadline time.Duration) (out []string, ok bool) {
+	ok = RecvDrainInto(rc, max, deadline, &out)
+	return out, ok
+}
+
+// RecvDrainInto is RecvDrain appending to *dst, so that the results obtained
+// before a panic of the real code are not lost.
+func RecvDrainInto(rc *RecvChannel, max int, deadline time.Duration, dst *[]string) (ok bool) {
 	rc.Conn.SetReadDeadline(time.Now().Add(deadline))
 	ctx, cancel := context.WithTimeout(context.Background(), deadline)
 	defer cancel()
 	for i := 0; i < max; i++ {
 		m := rc.SC.Receive(ctx)
 		if m.Err == io.EOF {
-			return out, true
+			return true
 		}
 		if m.Err != nil {
 			if ne, isNet := m.Err.(net.Error); isNet && ne.Timeout() {
-				return out, false
+				return false
 			}
 			if strings.Contains(m.Err.Error(), "i/o timeout") || m.Err == context.DeadlineExceeded {
-				return out, false
+				return false
 			}
 		}
-		out = append(out, RecvResultText(m))
+		*dst = append(*dst, RecvResultText(m))
 	}
-	return out, false
+	return false
 }
 
 // RecvWriteAll writes the frames to the peer socket and half-closes it, so that
@@ -388,6 +398,12 @@ type RecvJob struct {
 	Frames      [][]byte `json:"frames"`
 	DeadlineMs  int      `json:"deadline_ms"`
 	MaxResults  int      `json:"max_results"`
+	// WithKey: an unsecured configuration that nevertheless carries a private key
+	// and certificate (what the gopcua server uses for every new connection)
+	WithKey bool `json:"with_key"`
+	// AckReply (setup "handshake-client"): the Acknowledge the peer answers the
+	// client's Hello with: rcvBuf sndBuf maxMsg maxChunks
+	AckReply []uint32 `json:"ack_reply"`
 }
 
 type RecvJobResult struct {
@@ -429,14 +445,23 @@ func RecvWorkerMain() {
 }
 
 func recvDoJob(job *RecvJob) (res RecvJobResult) {
+	var results []string
 	defer func() {
 		if e := recover(); e != nil {
 			res.Outcome = "panic: " + fmt.Sprint(e)
+			res.Results = results
 		}
 	}()
 	var cfg *uasc.Config
 	if job.URI == "" || job.URI == ua.SecurityPolicyURINone {
 		cfg = RecvNoneConfig()
+		if job.WithKey {
+			ka, err := LoadKey(job.KeyDir, 2048, "a")
+			if err != nil {
+				return RecvJobResult{Outcome: "setup: " + err.Error()}
+			}
+			cfg.LocalKey, cfg.Certificate = ka.Key, ka.CertDER
+		}
 	} else {
 		ka, err := LoadKey(job.KeyDir, 2048, "a")
 		if err != nil {
@@ -454,6 +479,10 @@ func recvDoJob(job *RecvJob) (res RecvJobResult) {
 	switch job.Setup {
 	case "", "open":
 		rc, err = OpenRecvChannel(cfg, ack, job.Server, job.ChannelID, job.TokenID, 1, job.LocalNonce, job.RemoteNonce)
+	case "open-server": // a server channel as it is after a completed OpenSecureChannel: the opening instance stays
+		rc, err = recvOpenServerChannel(cfg, ack, job.ChannelID, job.TokenID, job.LocalNonce, job.RemoteNonce)
+	case "handshake-client":
+		rc, err = recvHandshakeClient(cfg, ack, job.AckReply)
 	default:
 		rc, err = RecvFreshChannel(cfg, ack, job.Setup == "fresh-server", job.ChannelID, job.TokenID)
 	}
@@ -471,14 +500,85 @@ func recvDoJob(job *RecvJob) (res RecvJobResult) {
 	if max == 0 {
 		max = len(job.Frames) + 2
 	}
-	out, ok := RecvDrain(rc, max, dl)
-	res.Results = out
+	ok := RecvDrainInto(rc, max, dl, &results)
+	res.Results = results
 	res.Outcome = "ok"
 	if !ok {
 		res.Outcome = "timeout"
 	}
 	res.Entries, res.Chunks, res.Bytes = rc.SC.VerifChunkTable()
 	return res
+}
+
+func recvOpenServerChannel(cfg *uasc.Config, ack *uacp.Acknowledge, channelID, tokenID uint32, ln, rn []byte) (*RecvChannel, error) {
+	a, b, err := RecvTCPPair()
+	if err != nil {
+		return nil, err
+	}
+	conn, err := uacp.NewConn(a, ack)
+	if err != nil {
+		return nil, err
+	}
+	errch := make(chan error, 16)
+	sc, err := uasc.VerifOpenServerChannel(conn, cfg, channelID, tokenID, 1, ln, rn, errch)
+	if err != nil {
+		a.Close()
+		b.Close()
+		return nil, err
+	}
+	return &RecvChannel{SC: sc, Conn: conn, Peer: b, ErrCh: errch}, nil
+}
+
+// recvHandshakeClient: a client connection performs the real HEL/ACK handshake
+// against a peer that answers with the given Acknowledge values, then a
+// client secure channel (nothing opened) is put on top.
+func recvHandshakeClient(cfg *uasc.Config, ack *uacp.Acknowledge, reply []uint32) (*RecvChannel, error) {
+	a, b, err := RecvTCPPair()
+	if err != nil {
+		return nil, err
+	}
+	conn, err := uacp.NewConn(a, ack)
+	if err != nil {
+		return nil, err
+	}
+	perr := make(chan error, 1)
+	go func() {
+		hdr := make([]byte, 8)
+		if _, err := io.ReadFull(b, hdr); err != nil {
+			perr <- err
+			return
+		}
+		rest := make([]byte, binary.LittleEndian.Uint32(hdr[4:])-8)
+		if _, err := io.ReadFull(b, rest); err != nil {
+			perr <- err
+			return
+		}
+		f := make([]byte, 28)
+		copy(f, "ACKF")
+		binary.LittleEndian.PutUint32(f[4:], 28)
+		binary.LittleEndian.PutUint32(f[8:], 0)
+		for i, v := range reply {
+			binary.LittleEndian.PutUint32(f[12+4*i:], v)
+		}
+		_, err := b.Write(f)
+		perr <- err
+	}()
+	ctx, cancel := context.WithTimeout(context.Background(), 10*time.Second)
+	defer cancel()
+	if err := conn.Handshake(ctx, "opc.tcp://127.0.0.1:4840"); err != nil {
+		a.Close()
+		b.Close()
+		return nil, err
+	}
+	if err := <-perr; err != nil {
+		return nil, err
+	}
+	errch := make(chan error, 16)
+	sc, err := uasc.NewSecureChannel("opc.tcp://verif", conn, cfg, errch)
+	if err != nil {
+		return nil, err
+	}
+	return &RecvChannel{SC: sc, Conn: conn, Peer: b, ErrCh: errch}, nil
 }
 
 // RecvFreshChannel builds a channel on which nothing has been opened yet.
@@ -523,9 +623,8 @@ type recvTail struct {
 
 func (t *recvTail) Write(p []byte) (int, error) {
 	t.mu.Lock()
-	t.b = append(t.b, p...)
-	if len(t.b) > 4096 {
-		t.b = t.b[len(t.b)-4096:]
+	if len(t.b) < 2048 { // the first lines name the fatal error
+		t.b = append(t.b, p...)
 	}
 	t.mu.Unlock()
 	return len(p), nil
@@ -538,8 +637,8 @@ func (t *recvTail) head() string {
 	if i := strings.Index(s, "\n\n"); i > 0 {
 		s = s[:i]
 	}
-	if len(s) > 300 {
-		s = s[:300]
+	if len(s) > 200 {
+		s = s[:200]
 	}
 	return strings.ReplaceAll(s, "\n", " | ")
 }
